@@ -18,6 +18,7 @@ import (
 	"path/filepath"
 	"reflect"
 	"strings"
+	"time"
 
 	corev1 "k8s.io/api/core/v1"
 	metav1 "k8s.io/apimachinery/pkg/apis/meta/v1"
@@ -30,7 +31,13 @@ import (
 )
 
 func init() {
-	register("C20", &checkDef{level: "exploration", fn: runC20})
+	register("C20", &checkDef{level: "exploration", fn: runC20,
+		batches:  func(th bool) int { return map[bool]int{false: 1, true: 8}[th] },
+		parallel: func(bool) int { return 8 },
+		timeout: func(th bool) time.Duration {
+			return map[bool]time.Duration{false: 30 * time.Minute, true: 90 * time.Minute}[th]
+		},
+	})
 }
 
 // rfc7396 applies a JSON merge patch (independent reference implementation).
@@ -208,11 +215,12 @@ func docShape(doc map[string]any) string {
 
 func runC20(c *ctxT) {
 	r := c.R
-	rng := rand.New(rand.NewSource(r.Seed))
+	rng := rand.New(rand.NewSource(r.Seed + int64(c.Batch)*7919))
 	n := 40000
 	if c.Thorough {
 		n = 1500000
 	}
+	n /= max(c.NBatch, 1)
 	r.Rule = "merge: generated base/overlay JSON objects over the Config schema (scalars, maps with null members, arrays, nulls, unknown keys, occasional type confusion); laws: empty overlay, idempotence, absent keys keep base, equality with an independent RFC 7396 implementation; distinct = distinct (base shape, overlay shape, error-ness). chain: complete product of plugin lists × kernel eBPF/EDT × policy provider × requested virtual type × AutoDataPathV2 gate × recorded capabilities × cilium_net link × network-policy switch, enumerated in-package (cmd/terway-cli) under a private netns/mountns"
 	r.Assumptions = []string{"reference = RFC 7396 as implemented in this harness + encoding/json", "chain half: nodeCapabilitiesFile is a const path; the test runs with a private tmpfs on /run"}
 
@@ -303,8 +311,10 @@ func runC20(c *ctxT) {
 		}
 	}
 
-	// ---- chain half: run the in-package test binary ----
-	runInpkg(c, "terwaycli.test", "TestVerifC20Chain", true)
+	// ---- chain half: run the in-package test binary (a complete enumeration: once) ----
+	if c.Batch == 0 {
+		runInpkg(c, "terwaycli.test", "TestVerifC20Chain", true)
+	}
 }
 
 func cfgDiffSafe(a, b *daemon.Config) string {
